@@ -1,6 +1,7 @@
 """C04 links and monitors: exactly one notification when the target goes away."""
 
 IMPORTS = "From Ergo Require Import Common.Base Rel.Amap Rel.Model Rel.Cases.\nLocal Open Scope N_scope."
+IMPORTS_NODE = "From Ergo Require Import Common.Base Rel.Amap Rel.Model Rel.RaceGen Rel.RaceGenCases Rel.NodeRace Rel.NodeRaceCases.\nLocal Open Scope N_scope."
 IMPORTS_ILV = "From Ergo Require Import Common.Base Rel.Amap Rel.Model Rel.RaceGen Rel.RaceGenCases.\nLocal Open Scope N_scope."
 
 
@@ -16,6 +17,10 @@ def _eval(c, sub, out, search=False):
         # threads parked at the target manager calls); the corpus is the exhaustive enumeration
         c.cases("ilv" + ("-search" if search else ""), out, IMPORTS_ILV, "rcase",
                 corr=[] if search else ["corr_ilv"], spec=["spec_ilv"], premise=["premise_ilv"])
+    elif sub == "ilvnode":
+        # LinkNode / MonitorNode against the loss of the connection: every interleaving on two real nodes
+        c.cases("ilvnode" + ("-search" if search else ""), out, IMPORTS_NODE, "ncase",
+                corr=[] if search else ["corr_node"], spec=["spec_node"], premise=["premise_node"])
     elif sub == "race":
         # Go monitor only; failures not about link/monitor requests belong to C06
         out["monitor"] = [m for m in (out.get("monitor") or [])
@@ -26,7 +31,7 @@ def _eval(c, sub, out, search=False):
 def run(c):
     c.proofs("theories/Properties/C04.v", clean=(c.tier == "thorough"))
     quick = c.tier == "quick"
-    n = {"tm": 300 if quick else 4000, "hist": 250 if quick else 3000, "race": 1500 if quick else 30000, "ilv": 0}
+    n = {"tm": 300 if quick else 4000, "hist": 250 if quick else 3000, "race": 1500 if quick else 30000, "ilv": 0, "ilvnode": 0}
     if c.replay:
         import json
         eng = (json.load(open(c.replay)).get("engine") or "tm")
@@ -35,14 +40,14 @@ def run(c):
         if out:
             _eval(c, sub, out)
         return
-    for sub in ("ilv", "tm", "hist", "race"):
+    for sub in ("ilv", "ilvnode", "tm", "hist", "race"):
         out = c.harness("rel", [sub, "-n", str(n[sub])], timeout=900)
         if out:
             _eval(c, sub, out)
     if c.broken and not c.violations:
         # something no longer checks: spend the extra search budget looking for a failing input
         keep = list(c.broken)
-        for sub in ("ilv", "tm", "hist", "race"):
+        for sub in ("ilv", "ilvnode", "tm", "hist", "race"):
             out = c.harness("rel", [sub, "-n", str(n[sub] * (10 if quick else 3))], timeout=1500,
                             env={"VERIF_SEED": str(c.seed + 7919)})
             if out:
@@ -62,6 +67,7 @@ def run(c):
         "race theorem: the requester is not the terminating process and stays alive; Go sync.Map / atomic operations are linearizable (each model step = one such operation or one critical section of the target manager mutex)",
         "race theorems for all removers (C04_race_any_remover, C04_race_exactly_one): two threads - one request, one remover (unregisterProcess, node.UnregisterName, process.DeleteAlias, unregisterEvent); nobody else writes the node tables meanwhile, so 'Load, owner check, Delete' / LoadAndDelete of a remover is one step; the drain (CleanupTarget + the sends) is one step: the snapshot is taken under the target manager mutex and the requester never reads mailboxes",
         "interleaving runs (ilv): the threads are parked inside a wrapper of the real target manager (before/after Add*, before Remove*, before/after CleanupTarget) installed through NodeOptions.TargetManager; kill scenarios start at the unreg.delete yield point (state word of the owner already Terminated); the code between two parking points is one model step",
-        "remote targets: only the target manager (CleanupNode) is modelled here; network frames belong to C14",
+        "node target (C04_node_race_exactly_one, ilvnode): a connection lookup that finds no entry fails (the harness removes the static route once the connection stands; network.GetNode would otherwise dial again and the request would refer to the new connection); two real nodes in one OS process over loopback TCP; the connection is dropped with RemoteNode.Disconnect on the requester's node and unregisterConnection runs in the serve goroutine of that connection; its sends are awaited by polling the requester's mailbox (up to 120 ms after the last release)",
+        "remote targets: only the target manager (CleanupNode) is modelled here; network frames belong to C14; the remote branches of RouteLink*/RouteMonitor* (request answered by the peer, connection lost, relation inserted after CleanupNode) are not covered by the race theorems",
         "history-level theorems (C04_sequential_hist, C04_history_total): operations are atomic and the 64-bit process id counter does not wrap (nextpid + number of operations < 2^64); meta-process aliases and event consumer counters are outside the model",
     ]
